@@ -7,3 +7,74 @@ inductive WasmMsg (Binary Coin : Type) where
   | Instantiate2 (admin : Option String) (code_id : Nat) (label : String) (msg : Binary) (funds : List Coin) (salt : Binary)
 
 end RustExtern
+
+/-! ## cosmwasm_std types behind `sylvia/src/into_response.rs`
+
+Hand-written and trusted to mirror cosmwasm-std 2.2 (the L3 stream runs the regenerated functions next to the real ones on
+every run): `CosmosMsg<T>` with its nine variants (payload types opaque, bundled in `Ext`), `SubMsg<T>`, `Response<T>` with the
+four builder methods `into_response` uses, `StdError::generic_err`, `Empty`. -/
+namespace RustExtern
+
+/-- the payload types sylvia never looks into -/
+structure Ext where
+  Wasm : Type
+  Bank : Type
+  Staking : Type
+  Distribution : Type
+  Ibc : Type
+  Any : Type
+  Gov : Type
+  Binary : Type
+  Attribute : Type
+  Event : Type
+
+/-- `cosmwasm_std::Empty` (a unit-like struct: inhabited) -/
+inductive CwEmpty where
+  | mk
+deriving DecidableEq, Repr
+
+inductive StdError where
+  | generic_err (msg : String)
+deriving DecidableEq, Repr
+
+inductive ReplyOn where
+  | Always | Error | Success | Never
+deriving DecidableEq, Repr
+
+inductive CosmosMsg (X : Ext) (T : Type) where
+  | Bank (a : X.Bank)
+  | Custom (a : T)
+  | Staking (a : X.Staking)
+  | Distribution (a : X.Distribution)
+  | Stargate (type_url : String) (value : X.Binary)
+  | Ibc (a : X.Ibc)
+  | Wasm (a : X.Wasm)
+  | Gov (a : X.Gov)
+  | Any (a : X.Any)
+
+structure SubMsg (X : Ext) (T : Type) where
+  id : Nat
+  payload : X.Binary
+  msg : CosmosMsg X T
+  gas_limit : Option Nat
+  reply_on : ReplyOn
+
+structure Response (X : Ext) (T : Type) where
+  messages : List (SubMsg X T)
+  attributes : List X.Attribute
+  events : List X.Event
+  data : Option X.Binary
+
+variable {X : Ext} {T : Type}
+
+/-- `Response::new()` -/
+def Response.new : Response X T := { messages := [], attributes := [], events := [], data := none }
+/-- `Response::add_submessages`: appended after those already present -/
+def Response.add_submessages (r : Response X T) (ms : List (SubMsg X T)) : Response X T := { r with messages := r.messages ++ ms }
+def Response.add_events (r : Response X T) (es : List X.Event) : Response X T := { r with events := r.events ++ es }
+def Response.add_attributes (r : Response X T) (as : List X.Attribute) : Response X T := { r with attributes := r.attributes ++ as }
+
+/-- `format!(..)`: only the template is kept (error texts are compared by class) -/
+def fmt (template : String) : String := template
+
+end RustExtern
